@@ -113,7 +113,17 @@ class Ctx:
                         if 'const' in o and 'fn' in o['const']:
                             as_value.add(o['const']['fn']['path'])
         out = []
+        self._inline_keep = set()
         for b in self.lib_bodies():
+            if b.kind in ('Fn', 'AssocFn') and b.is_pub and not b.impl_trait and b.name != 'new' and b.path not in as_value and \
+                    b.path not in owner and len(b.blocks) <= 40 and b.path.startswith(('base::states::', 'base::spaces::')) and \
+                    not any(b.local_ty(i).startswith('&mut ') for i in range(1, b.arg_count + 1)) and \
+                    b.path not in self.local_callees(b):
+                # a small public helper of a state / space type (`normalised_value`, `dot`, `norm`, `center`): its callers are
+                # analysed with its body in place; the function itself stays (it is public API with obligations of its own)
+                out.append(b.path)
+                self._inline_keep.add(b.path)
+                continue
             if b.kind not in ('Fn', 'AssocFn') or b.is_pub or b.impl_trait or b.name == 'new' or b.path in mcs or \
                     b.path in as_value or len(b.blocks) > 400:
                 continue
@@ -129,7 +139,7 @@ class Ctx:
                 continue                                            # recursive
             p = owner.get(b.path)
             if p is not None:
-                pushing = any(pu['body'] is b for pu in P.pushes(self, p))
+                pushing = any(pu['body'] is b or pu['body'].path.startswith(b.path + '::{closure') for pu in P.pushes(self, p))
                 if pushing and 'usize' in ret:
                     continue                                        # returns the index of the node it pushes
                 if ret == 'std::vec::Vec<usize>' and not any(self.reaches_call(b, m) for m in mcs):
@@ -163,8 +173,15 @@ class Ctx:
         out = []
         if crate is None:
             return out
+        # the adapter types (they implement the core's callback traits): their private inherent methods are helpers of the
+        # adapters (`PyGoal::ask(method, state, fallback)`, `JsGoal::method(name)`), analysed inside the trait methods that call them
+        adapters = {imp.get('self_adt') for imp in crate.impls
+                    if any(w in (imp.get('trait') or '') for w in ('::goal::Goal', '::goal::GoalRegion', '::goal::GoalSampleableRegion',
+                                                                     '::validity::StateValidityChecker'))}
+        adapters.discard(None)
         for b in crate.bodies:
-            if b.kind != 'Fn' or b.is_pub or b.in_test_mod() or len(b.blocks) > 200 or (b.name or '').startswith('__'):
+            helper_method = b.kind == 'AssocFn' and b.impl_trait is None and b.j.get('impl_adt') in adapters and b.name not in ('new',)
+            if (b.kind != 'Fn' and not helper_method) or b.is_pub or b.in_test_mod() or len(b.blocks) > 200 or (b.name or '').startswith('__'):
                 continue
             if b.path in self.local_callees(b):
                 continue
@@ -237,8 +254,9 @@ class Ctx:
             return nb
         bodies = []
         mine = set()
+        keep = getattr(self, '_inline_keep', set()) if crate is self.core else set()
         for b in crate.bodies:
-            if b.path in paths and not b.in_test_mod():
+            if b.path in paths and not b.in_test_mod() and b.path not in keep:
                 continue
             if b.in_test_mod():
                 bodies.append(b.j)
@@ -256,7 +274,7 @@ class Ctx:
         for bj in bodies:
             for blk in bj['blocks']:
                 t = blk['term']
-                if not blk['cleanup'] and t['k'] == 'call' and t['func'].get('path') in paths:
+                if not blk['cleanup'] and t['k'] == 'call' and t['func'].get('path') in paths and t['func'].get('path') not in keep:
                     import os
                     if os.environ.get('OXA_DEBUG_VIEW'):
                         print('   [view dropped] %s still calls %s' % (bj['path'], t['func'].get('path')), file=__import__('sys').stderr)
@@ -286,7 +304,7 @@ class Ctx:
             return None
         if not used:
             return None
-        removed = {p: self.core.body(p).j.get('impl_adt') for p in paths}
+        removed = {p: self.core.body(p).j.get('impl_adt') for p in paths if p not in getattr(self, '_inline_keep', set())}
         c2 = Ctx(None, _derived=(self, core2 or self.core, removed))
         if py2:
             c2.py = py2
